@@ -261,6 +261,14 @@ func GenHistory(t *rapid.T, p Profile) History {
 					Step{Kind: "build", Build: &BuildOpts{Patterns: []string{"//..."}, LoadOutputs: "minimal"}}, Step{Kind: "build", Build: &BuildOpts{Patterns: []string{"//..."}}})
 			} else {
 				h.Steps = append(h.Steps, Step{Kind: "build", Build: genBuild(t, p, h.WS)})
+				if rapid.IntRange(0, 2).Draw(t, "and-again") == 0 {
+					// ... and once more: S1's outputs in the workspace now came out of the cache; S2's commands write over
+					// them (some in place); the last build must still find S1's bytes in the cache
+					all := &BuildOpts{Patterns: []string{"//..."}}
+					again := s
+					again.V = s.V + 3 // another content than the first time: this state has never been built, so its commands run
+					h.Steps = append(h.Steps, again, Step{Kind: "build", Build: all}, back, Step{Kind: "build", Build: all})
+				}
 			}
 		}
 	}
